@@ -24,8 +24,11 @@ Definition obs_eqb (a b : obs) : bool :=
   end.
 
 Record case12 := Case12 {
+  k_hd : option hid;        (* the store the schedule starts from, as loaded by Start: Head, *)
+  k_tl : option hid;        (* Tail, *)
+  k_m : list hid;           (* and the stored headers (None None []: a fresh, empty store) *)
   k_ns : list N;            (* requested height of reader 0, 1, ... *)
-  k_sched : list event;     (* the schedule, at the model's granularity; store starts empty *)
+  k_sched : list event;     (* the schedule, at the model's granularity *)
   k_obs : list obs;         (* per reader, at the end of the schedule *)
   k_height : N;             (* Store.Height() at the end *)
   k_head : N;               (* Head().Height() at the end, 0 = ErrEmptyStore *)
@@ -38,7 +41,13 @@ Record case12 := Case12 {
 Definition hid_range (a k : N) : list hid :=
   snd (N.iter k (fun p : N * list hid => let i := fst p - 1 in (i, (i, i) :: snd p)) (a + k, [])).
 
-Definition final (c : case12) : state := run (k_sched c) (init None None [] (k_ns c) []).
+Definition init0 (c : case12) : state := init (k_hd c) (k_tl c) (k_m c) (k_ns c) [].
+Definition final (c : case12) : state := run (k_sched c) (init0 c).
+
+(** decidable [wf_init]: the loaded Head and Tail are stored *)
+Definition ptr_stored (p : option hid) (m : list hid) : bool :=
+  match p with Some x => match map_get m (fst x) with Some _ => true | None => false end | None => true end.
+Definition wf_initb (hd tl : option hid) (m : list hid) : bool := ptr_stored hd m && ptr_stored tl m.
 
 Definition obs_of (r : reader) : obs :=
   match r_pc r with RDone x => ODone x | _ => OBlocked end.
@@ -63,7 +72,7 @@ Definition model12 (c : case12) : list obs * N * N :=
 
 (** reader i's observation after the first [p] events *)
 Definition obs_at (c : case12) (p i : nat) : obs :=
-  match nth_error (st_readers (run (firstn p (k_sched c)) (init None None [] (k_ns c) []))) i with
+  match nth_error (st_readers (run (firstn p (k_sched c)) (init0 c))) i with
   | Some r => obs_of r
   | None => OOther
   end.
@@ -84,7 +93,7 @@ Definition ret_agree (c : case12) : bool :=
 
 Definition agree12 (c : case12) : bool :=
   let s := final c in
-  settled s && list_eqb obs_eqb (map obs_of (st_readers s)) (k_obs c)
+  wf_initb (k_hd c) (k_tl c) (k_m c) && settled s && list_eqb obs_eqb (map obs_of (st_readers s)) (k_obs c)
   && (st_hsh s =? k_height c) && (hsh_of (st_head s) =? k_head c) && ret_agree c.
 
 (** reader i has been let past its first lookup: at least two of its steps *)
@@ -106,11 +115,11 @@ Fixpoint absent_at (n : N) (lo hi pos : nat) (s : state) (sched : list event) : 
 Definition reader_ok (c : case12) (i : nat) (n : N) (o : obs) : bool :=
   let app := enqueued (k_sched c) in
   match o with
-  | ODone (RFound id) => hid_mem (n, id) app                        (* the header stored for n *)
+  | ODone (RFound id) => hid_mem (n, id) (appended_init (k_hd c) (k_tl c) (k_m c) [] ++ app)   (* the header stored for n *)
   | ODone RNotFound =>
     (n <=? k_height c)                                              (* only at or below Height() ... *)
     && absent_at n (first_own (k_sched c) i) (ret_of c i) 0         (* ... and absent at an instant of the call *)
-                 (init None None [] (k_ns c) []) (k_sched c)        (*     at which Height() had reached n    *)
+                 (init0 c) (k_sched c)                              (*     at which Height() had reached n    *)
   | ODone RCtx => cancelled_in (k_sched c) i                        (* only when its context ended *)
   | ODone RZero => n =? 0
   | OBlocked =>
@@ -147,12 +156,15 @@ Proof.
   rewrite !N.eqb_refl. reflexivity.
 Qed.
 
-Lemma wf_empty : wf_init None None [].
-Proof. split; intros x H; discriminate. Qed.
+Lemma wf_initb_ok hd tl m : wf_initb hd tl m = true -> wf_init hd tl m.
+Proof.
+  unfold wf_initb, ptr_stored. intros H. apply andb_prop in H as [H1 H2].
+  split; intros x ->; [destruct (map_get m (fst x))|destruct (map_get m (fst x))]; discriminate.
+Qed.
 
-Definition model_case (ns : list N) (sched : list event) (rets : list nat) : case12 :=
-  let s := run sched (init None None [] ns []) in
-  Case12 ns sched (map obs_of (st_readers s)) (st_hsh s) (hsh_of (st_head s)) rets true.
+Definition model_case (hd tl : option hid) (m : list hid) (ns : list N) (sched : list event) (rets : list nat) : case12 :=
+  let s := run sched (init hd tl m ns []) in
+  Case12 hd tl m ns sched (map obs_of (st_readers s)) (st_hsh s) (hsh_of (st_head s)) rets true.
 
 Lemma forall_idx_elim {A B} (f : nat -> A -> B -> bool) : forall l m i j a b,
   forall_idx f i l m = true -> nth_error l j = Some a -> nth_error m j = Some b -> f (i + j)%nat a b = true.
@@ -190,12 +202,14 @@ Qed.
 Lemma run_firstn_firstn k t sched s : (k <= t)%nat -> run (firstn k (firstn t sched)) s = run (firstn k sched) s.
 Proof. intros H. rewrite firstn_firstn. replace (Nat.min k t) with k by lia. reflexivity. Qed.
 
-Theorem model12_ok ns sched rets :
-  settled (run sched (init None None [] ns [])) = true ->
-  ret_agree (model_case ns sched rets) = true ->
-  ok12 (model_case ns sched rets) = true.
+Theorem model12_ok hd tl m ns sched rets :
+  wf_initb hd tl m = true ->
+  settled (run sched (init hd tl m ns [])) = true ->
+  ret_agree (model_case hd tl m ns sched rets) = true ->
+  ok12 (model_case hd tl m ns sched rets) = true.
 Proof.
-  intros Hset Hret. set (s := run sched (init None None [] ns [])) in *.
+  intros WFb Hset Hret. pose proof (wf_initb_ok hd tl m WFb) as wf_empty.
+  set (s := run sched (init hd tl m ns [])) in *.
   unfold ok12. cbn [k_probe model_case]. rewrite andb_true_r. apply forall_idx_intro.
   - cbn. rewrite map_length. fold s. unfold s. rewrite run_length. cbn. rewrite map_length. reflexivity.
   - intros j n o Hn Ho.
@@ -227,25 +241,25 @@ Proof.
       assert (Hpk : parked r = true) by (unfold parked; rewrite Epc; reflexivity).
       assert (Hw : st_w s = WIdle).
       { unfold writer_idle in Hidle. destruct (st_w s); try discriminate. reflexivity. }
-      destruct (waiter_above_height None None [] ns [] sched j r wf_empty E Hpk Hw) as [Hlt _]. fold s in Hlt.
+      destruct (waiter_above_height hd tl m ns [] sched j r wf_empty E Hpk Hw) as [Hlt _]. fold s in Hlt.
       apply N.ltb_lt in Hlt. rewrite Hnc, Hlt. cbn.
       destruct (mem (r_n r) (map fst (enqueued sched))) eqn:Em; [|apply orb_true_r].
       exfalso. apply mem_In in Em.
-      pose proof (no_lost_wakeup None None [] ns [] sched j r wf_empty E Hidle Em) as Hb.
+      pose proof (no_lost_wakeup hd tl m ns [] sched j r wf_empty E Hidle Em) as Hb.
       unfold blocked in Hb. rewrite Epc in Hb. discriminate.
     + unfold reader_settled in Hr. rewrite Epc in Hr. discriminate.
-    + destruct (returns_only_when_due None None [] ns [] sched j r x wf_empty E Epc) as [_ H].
+    + destruct (returns_only_when_due hd tl m ns [] sched j r x wf_empty E Epc) as [_ H].
       destruct x; cbn [reader_ok k_sched k_height k_ns].
       * apply hid_mem_In. exact H.
       * apply andb_true_intro. split; [apply N.leb_le; exact H|].
         (* the witness instant, taken from the prefix at which the driver saw the call returned *)
-        set (c := Case12 ns sched (map obs_of (st_readers s)) (st_hsh s) (hsh_of (st_head s)) rets true) in *.
+        set (c := Case12 hd tl m ns sched (map obs_of (st_readers s)) (st_hsh s) (hsh_of (st_head s)) rets true) in *.
         set (t := ret_of c j) in *. set (p := firstn t sched).
-        unfold obs_at in Hrj. change (k_sched c) with sched in Hrj. change (k_ns c) with ns in Hrj. fold p in Hrj.
-        destruct (nth_error (st_readers (run p (init None None [] ns []))) j) as [rp|] eqn:Ep; [|cbn in Hrj; discriminate].
+        unfold obs_at in Hrj. change (k_sched c) with sched in Hrj. change (init0 c) with (init hd tl m ns []) in Hrj. fold p in Hrj.
+        destruct (nth_error (st_readers (run p (init hd tl m ns []))) j) as [rp|] eqn:Ep; [|cbn in Hrj; discriminate].
         assert (Hpp : r_pc rp = RDone RNotFound).
         { unfold obs_of in Hrj. destruct (r_pc rp) as [| | | | |[| | |]]; cbn in Hrj; try discriminate. reflexivity. }
-        destruct (notfound_only_when_absent None None [] ns [] p j rp wf_empty Ep Hpp) as (k & Hk & H1 & H2 & _).
+        destruct (notfound_only_when_absent hd tl m ns [] p j rp wf_empty Ep Hpp) as (k & Hk & H1 & H2 & _).
         assert (Hrn : r_n rp = r_n r).
         { destruct (run_reader_back p _ _ _ Ep) as (rq & Eq & Hq & _). apply init_reader in Eq as [Eq _]. congruence. }
         assert (Hlen : (length p <= t)%nat) by (unfold p; rewrite firstn_length; lia).
@@ -258,12 +272,13 @@ Proof.
 Qed.
 
 (** and it always agrees with itself (for checkpoints at which the calls have returned) *)
-Theorem model12_agree ns sched rets :
-  settled (run sched (init None None [] ns [])) = true ->
-  ret_agree (model_case ns sched rets) = true -> agree12 (model_case ns sched rets) = true.
+Theorem model12_agree hd tl m ns sched rets :
+  wf_initb hd tl m = true ->
+  settled (run sched (init hd tl m ns [])) = true ->
+  ret_agree (model_case hd tl m ns sched rets) = true -> agree12 (model_case hd tl m ns sched rets) = true.
 Proof.
-  intros Hset Hret. unfold agree12. change (final (model_case ns sched rets)) with (run sched (init None None [] ns [])).
-  rewrite Hset, Hret. cbn [k_obs k_height k_head model_case]. rewrite !N.eqb_refl, !andb_true_r. cbn.
-  induction (st_readers (run sched (init None None [] ns []))) as [|r l IH]; cbn; [reflexivity|].
+  intros WFb Hset Hret. unfold agree12. change (final (model_case hd tl m ns sched rets)) with (run sched (init hd tl m ns [])).
+  cbn [k_hd k_tl k_m model_case]. rewrite WFb, Hset, Hret. cbn [k_obs k_height k_head model_case]. rewrite !N.eqb_refl, !andb_true_r. cbn.
+  induction (st_readers (run sched (init hd tl m ns []))) as [|r l IH]; cbn; [reflexivity|].
   rewrite IH, andb_true_r. unfold obs_of. destruct (r_pc r) as [| | | | |[id| | |]]; cbn; auto. apply N.eqb_refl.
 Qed.
